@@ -44,6 +44,12 @@ CHECKS = {
  "C16": dict(engine="simrt+simnet+modelredis", cat="exploration", ref="DESIGN.md 5/C16",
    text="Seeded search over source keyspaces, adversarial SCAN paginations, keys vanishing between SCAN/DUMP/PTTL, batch sizes, big-key thresholds, filters, target.db, QoS rates and key-file scans, through the real rump pipeline (fetcher/writer/receiver) between a source and a target model; surviving keys must arrive with value and remaining TTL, vanished ones must be skipped, the run must end.",
    tech="deterministic simulation: scan adversary + key mutator in the source model, scheduled three-stage pipeline, reference decoder as oracle"),
+ "C14": dict(engine="simrt+simnet+modelredis", cat="exploration", ref="DESIGN.md 5/C14",
+   text="Seeded search over target states reachable by histories of checkpoint writes/partial clears from several sources with related addresses, read by the real LoadCheckpoint over a simulated connection (optionally cut mid-load); result and side effects compared with a reference arg-max.",
+   tech="deterministic simulation: history generator + target model, connection-cut fault, reference arg-max oracle"),
+ "C20": dict(engine="simrt+simnet+modelredis", cat="exploration", ref="DESIGN.md 5/C20",
+   text="Seeded search over shard topologies, node orderings and per-node per-attempt failure sequences (refused dial, error reply, missing role, garbage) against the real supervisor with its back-off sleeps on the simulated clock; the selected node must have reported master in the deciding round, all others listed, and failure must be bounded.",
+   tech="deterministic simulation: node models with tape-drawn per-attempt behaviour, refused-dial faults, simulated clock for the retry back-off"),
  "C18": dict(engine="simrt", cat="exploration", ref="DESIGN.md 5/C18",
    text="Seeded search over writer/reader/closer scripts and lock-granularity interleavings of the real backlog ring against an absolute-offset log model (interval semantics for in-flight writes), with lost-wake-up analysis at quiescence.",
    tech="deterministic simulation: tape-driven baton scheduler over instrumented locks/conds + absolute-offset log model"),
